@@ -8,7 +8,10 @@ as counters; idle timeout; held virtual keys), `handle_repeat`, `is_idle`,
 Sequence mode (`sequence_state`, `do_sequence_press_logic`, `tick_sequence_state`, ...) is composed in
 from Model/Sequences.lean through the hooks of Model/KanataSeq.lean (marked `-- [seq]` below).
 
-Not modelled (configurations using them are answered `unsupported` by the harness): dynamic macros (C19), zippychord (C20), chords v2, `cmd`, clipboard,
+Dynamic macros are composed in from Model/DynMacro.lean through Model/KanataDyn.lean (hooks marked
+`-- [dyn]` below) and Model/KanataDynTick.lean (`tick_ms`).
+
+Not modelled (configurations using them are answered `unsupported` by the harness): zippychord (C20), `cmd`, clipboard,
 live reload (C15). Floating-point mouse distances are not modelled: mouse-move outputs carry the
 direction only. `HashSet`/`HashMap` iteration orders (`waiting_for_idle`, `vkeys_pending_release`)
 are list orders here; the generators keep at most one entry in each.
@@ -16,6 +19,7 @@ are list orders here; the generators keep at most one entry in each.
 import KVerif.Model.Layout
 import KVerif.Model.Override
 import KVerif.Model.KanataSeq   -- [seq]
+import KVerif.Model.KanataDyn   -- [dyn]
 namespace KVerif.K
 open KVerif.L
 
@@ -47,6 +51,7 @@ inductive CAct
   | seqLeader (timeout : Nat) (mode : Seq.Mode)   -- [seq] `SequenceLeader(timeout, input_mode)`
   | seqCancel                                     -- [seq] `SequenceCancel`
   | seqNoerase (n : Nat)                          -- [seq] `SequenceNoerase(count)`
+  | dyn (a : DynMacro.Act)                     -- [dyn] DynamicMacroRecord / RecordStop / Play
   | other                                      -- no effect on anything modelled
   deriving DecidableEq, Repr, Inhabited
 
@@ -94,6 +99,7 @@ inductive Crash
   | underflow (site : String)       -- `interval - 1` etc. on a zero value
   | customId                        -- custom action table lookup failed (serialiser error)
   | seq (c : Seq.Crash)             -- [seq] `ticks_until_timeout -= 1` at 0, `noerase_count +=` overflow
+  | dyn (c : DynMacro.Crash)        -- [dyn] `macro_items.len() - 1` on an empty Vec (pinned code only)
   deriving Repr
 
 /-- key codes of the eight modifiers in `UnmodMods` bit order (LSft RSft LAlt RAlt LCtl RCtl LMet RMet) -/
@@ -135,6 +141,7 @@ structure KState where
   macroOnPressCancelDuration : Nat := 0
   liveReloadRequested : Bool := false
   switchMaxKeyTiming : Nat := 0
+  dyn : Dyn := {}                                  -- [dyn] dynamic macro record / replay state, store, options
   out : List Os := []                              -- newest last
   seq : SeqK := {}                                 -- [seq] sequence fields of `Kanata` (Model/KanataSeq.lean)
   deriving Repr
@@ -363,6 +370,12 @@ def customPress (k : KState) (acts : List CAct) (cur : List KeyCode) : Except Cr
         | .error c => .error (.seq c)
         | .ok (sk, outs) => go rest (emitSeq { k with seq := sk } outs) cur prevBtn
       -- [seq] end
+      -- [dyn] begin
+      | .dyn da =>
+        match k.dyn.doAct da with
+        | .error e => .error (.dyn e)
+        | .ok d => go rest { k with dyn := d } cur prevBtn
+      -- [dyn] end
       | _ => go rest k cur prevBtn
   go acts k cur none
 
@@ -530,7 +543,13 @@ def tickSequenceState (k : KState) : Except Crash KState :=
   | .error c => .error (.seq c)
   | .ok (sk, outs) => .ok (emitSeq { k with seq := sk } outs)
 
-/-- `Kanata::tick_states` (dynamic macros and zippychord not modelled) -/
+/-- [dyn] `tick_record_state(&mut self.dynamic_macro_record_state)`; nothing happens unless a recording is on -/
+def dynTickRecord (k : KState) : KState :=
+  match k.dyn.rcd with
+  | none => k
+  | some _ => { k with dyn := k.dyn.tickRecord }
+
+/-- `Kanata::tick_states` (zippychord not modelled) -/
 def tickStates (k : KState) : Except Crash KState :=
   match handleKeystateChanges k with
   | .error c => .error c
@@ -548,6 +567,7 @@ def tickStates (k : KState) : Except Crash KState :=
   | .error c => .error c
   | .ok k =>
     let k := { k with macroOnPressCancelDuration := k.macroOnPressCancelDuration - 1 }
+    let k := dynTickRecord k   -- [dyn]
     let k := { k with prevKeys := k.curKeys, curKeys := [] }
     tickHeldVkeys k
 
@@ -617,11 +637,18 @@ inductive Input
   | tap (code : Nat)
   deriving Repr, DecidableEq
 
-/-- `Kanata::handle_input_event` (dynamic-macro recording not modelled) -/
+/-- [dyn] `record_press` / `record_release` in `handle_input_event`; nothing happens unless a recording is on -/
+def dynRecord (k : KState) (press : Bool) (code : Nat) : KState :=
+  match k.dyn.rcd with
+  | none => k
+  | some _ => { k with dyn := if press then k.dyn.recordPress code else k.dyn.recordRelease code }
+
+/-- `Kanata::handle_input_event` -/
 def handleInputEvent (k : KState) (i : Input) : Except Crash KState :=
   let k := { k with ticksSinceIdle := 0 }
   match i with
   | .press code =>
+    let k := dynRecord k true code   -- [dyn]
     let k := if k.macroOnPressCancelDuration > 0 then
         let l := k.layout
         { k with macroOnPressCancelDuration := 0,
@@ -632,6 +659,7 @@ def handleInputEvent (k : KState) (i : Input) : Except Crash KState :=
     | .error e => .error (.layout e)
     | .ok l => .ok { k with layout := l }
   | .release code =>
+    let k := dynRecord k false code   -- [dyn]
     match k.layout.event (.release (0, code)) with
     | .error e => .error (.layout e)
     | .ok l => .ok { k with layout := l }
@@ -643,8 +671,9 @@ def handleInputEvent (k : KState) (i : Input) : Except Crash KState :=
       | .error e => .error (.layout e)
       | .ok l => .ok { k with layout := l }
 
-/-- `Kanata::is_idle` (the conjuncts that concern modelled components), as in the tree now -/
-def isIdle (k : KState) : Bool :=
+/-- `Kanata::is_idle` (the conjuncts that concern modelled components), as in the tree now, except the
+dynamic-macro conjunct, which `isIdle` adds -/
+def isIdleBase (k : KState) : Bool :=
   let l := k.layout
   let pressedKeysMeansNotIdle := !k.waitingForIdle.isEmpty || k.liveReloadRequested
   l.queue.isEmpty && l.waiting.isNone && l.extraWaiting.isEmpty && l.lptTapHoldTimeout == 0 &&
@@ -657,6 +686,9 @@ def isIdle (k : KState) : Bool :=
     | .normalKey .. => pressedKeysMeansNotIdle
     | _ => false) &&
   !k.seq.st.active      -- [seq] `self.sequence_state.is_inactive()` (last here; the conjuncts are pure)
+
+/-- [dyn] `Kanata::is_idle`: `isIdleBase` and `self.dynamic_macro_replay_state.is_none()` -/
+def isIdle (k : KState) : Bool := isIdleBase k && k.dyn.rep.isNone
 
 /-- `Kanata::is_idle` of the pinned commit, before the three `fix:` commits 6f31db9, 1f5ac33,
 6e1cc72 (no `extra_waiting` conjunct; one-shot timeout 0 counted as idle; rapid-event pause ignored) -/
@@ -672,7 +704,8 @@ def isIdlePinned (k : KState) : Bool :=
     | .seqCustomPending _ | .seqCustomActive _ => true
     | .normalKey .. => pressedKeysMeansNotIdle
     | _ => false) &&
-  !k.seq.st.active      -- [seq] `self.sequence_state.is_inactive()` (last here; the conjuncts are pure)
+  !k.seq.st.active &&   -- [seq] `self.sequence_state.is_inactive()` (last here; the conjuncts are pure)
+  k.dyn.rep.isNone   -- [dyn]
 
 /-- `Kanata::can_block_update_idle_waiting` -/
 def canBlockUpdateIdleWaiting (k : KState) (msElapsed : Nat) : KState × Bool :=
@@ -683,6 +716,7 @@ def canBlockUpdateIdleWaiting (k : KState) (msElapsed : Nat) : KState × Bool :=
   let passed := match k.layout.histKeys.head? with
     | some (_, t) => t ≥ k.switchMaxKeyTiming
     | none => true
-  (k, idle && !counting && passed)
+  -- [dyn] `!recording_dynamic_macro` (fix ccfb98e): ticks must keep coming while a macro is being recorded
+  (k, idle && !counting && passed && k.dyn.rcd.isNone)
 
 end KVerif.K
